@@ -123,7 +123,9 @@ func (h *Hub) RunOptionalStats(closed chan struct{}, withStats bool) {
 				}
 			}
 			//set new rule
+			h.rulesMu.Lock()
 			h.Rules[rule.Stream] = rule.Feeds
+			h.rulesMu.Unlock()
 			// register the clients to any feeds currently set by stream rule
 			if feeds, ok := h.Rules[rule.Stream]; ok {
 				for client := range h.Streams[rule.Stream] {
@@ -159,7 +161,9 @@ func (h *Hub) RunOptionalStats(closed chan struct{}, withStats bool) {
 				// unregister or delete does not close them a second time
 				h.SubClients = make(map[*hub.Client]map[*SubClient]bool)
 
+				h.rulesMu.Lock()
 				h.Rules = make(map[string][]string)
+				h.rulesMu.Unlock()
 
 			} else { //single stream
 
@@ -176,7 +180,9 @@ func (h *Hub) RunOptionalStats(closed chan struct{}, withStats bool) {
 				}
 
 				// delete rule
+				h.rulesMu.Lock()
 				delete(h.Rules, stream)
+				h.rulesMu.Unlock()
 			}
 		}
 	}
